@@ -4,6 +4,133 @@
 
 package schedule
 
+//@ heapview (*cpuCoreHeap) = *self
+
+//@ # a slice of usable cores: non-nil records with positive pieces
+//@ pred okCores(cores []*cpuCore) = (arr(cores) == 0 || allocated(cores)) && forall k :: 0 <= k && k < len(cores) ==>
+//@        cores[k] != nil && allocated(cores[k]) && cores[k].pieces >= 1 && cores[k].pieces <= 2305843009213693952
+
+//@ func (cpuCore) Less
+//@   requires c1 != nil
+//@   ensures[C06.core-less,C04,C05] result == (c.pieces < c1.pieces || (c.pieces == c1.pieces && c.ID < c1.ID))
+
+//@ # ---- one fragment per plan: every plan is {core: fragment} on a core that can still carry it ----
+//@ func (*host) getFragmentCPUPlans
+//@   requires h != nil && fragment >= 1 && okCores(cores)
+//@   ensures[C05.fragment-shape,C04,C06] (arr(result) == 0 || (fresh(result) && allocated(result))) && forall k :: 0 <= k && k < len(result) ==>
+//@        result[k] != nil && fresh(result[k]) && allocated(result[k]) && card(result[k]) == 1 && msum(result[k]) == fragment
+//@        && exists c :: 0 <= c && c < len(cores) && cores[c].ID in result[k] && result[k][cores[c].ID] == fragment && fragment <= cores[c].pieces
+//@   loop 1:
+//@     modifies nothing
+//@     invariant (arr(result) == 0 || (fresh(result) && allocated(result)))
+//@     invariant forall k :: 0 <= k && k < len(result) ==> result[k] != nil && fresh(result[k]) && allocated(result[k]) && card(result[k]) == 1 && msum(result[k]) == fragment
+//@        && exists c :: 0 <= c && c <= rangeindex && cores[c].ID in result[k] && result[k][cores[c].ID] == fragment && fragment <= cores[c].pieces
+//@   loop 2:
+//@     modifies nothing
+//@     invariant 0 <= i && (arr(result) == 0 || (fresh(result) && allocated(result))) && core != nil && core == cores[rangeindex] && 0 <= rangeindex && rangeindex < len(cores)
+//@     invariant forall k :: 0 <= k && k < len(result) ==> result[k] != nil && fresh(result[k]) && allocated(result[k]) && card(result[k]) == 1 && msum(result[k]) == fragment
+//@        && exists c :: 0 <= c && c <= rangeindex && cores[c].ID in result[k] && result[k][cores[c].ID] == fragment && fragment <= cores[c].pieces
+//@     decreases core.pieces / fragment - i
+
+//@ # ---- the host a planning round works on ----
+//@ pred okHost(h *host) = h != nil && allocated(h) && h.shareBase >= 1 && h.shareBase <= 1048576 && (h.maxFragmentCores == -1 || h.maxFragmentCores >= 1)
+//@        && okCores(h.fullCores) && okCores(h.fragmentCores) && (arr(h.fullCores) == 0 || arr(h.fullCores) != arr(h.fragmentCores))
+
+//@ func newHost
+//@   requires (forall k string :: cpuMap[k] <= 2305843009213693952) && shareBase >= 1 && shareBase <= 1048576 && (maxFragmentCores == -1 || maxFragmentCores >= 1)
+//@   ensures[C06.newhost,C04,C05] okHost(result) && fresh(result) && result.shareBase == shareBase && result.maxFragmentCores == maxFragmentCores && !result.affinity
+//@        && (arr(result.fullCores) == 0 || fresh(result.fullCores)) && (arr(result.fragmentCores) == 0 || fresh(result.fragmentCores))
+//@   # classification: full cores hold a positive multiple of the share base, fragment cores any other positive amount
+//@   ensures[C04.classify,C05,C06] (forall k :: 0 <= k && k < len(result.fullCores) ==> result.fullCores[k].pieces >= shareBase && result.fullCores[k].pieces % shareBase == 0
+//@                                        && result.fullCores[k].ID in cpuMap && cpuMap[result.fullCores[k].ID] == result.fullCores[k].pieces)
+//@        && (forall k :: 0 <= k && k < len(result.fragmentCores) ==> result.fragmentCores[k].ID in cpuMap && cpuMap[result.fragmentCores[k].ID] == result.fragmentCores[k].pieces
+//@                                        && !(result.fragmentCores[k].pieces >= shareBase && result.fragmentCores[k].pieces % shareBase == 0))
+//@   loop 1:
+//@     modifies h
+//@     invariant h != nil && fresh(h) && allocated(h) && h.shareBase == shareBase && h.maxFragmentCores == maxFragmentCores && !h.affinity
+//@     invariant okCores(h.fullCores) && okCores(h.fragmentCores) && fresh(h.fullCores) && fresh(h.fragmentCores) && arr(h.fullCores) != arr(h.fragmentCores)
+//@     invariant forall k :: 0 <= k && k < len(h.fullCores) ==> fresh(h.fullCores[k]) && h.fullCores[k].pieces >= shareBase && h.fullCores[k].pieces % shareBase == 0
+//@                                        && h.fullCores[k].ID in cpuMap && cpuMap[h.fullCores[k].ID] == h.fullCores[k].pieces
+//@     invariant forall k :: 0 <= k && k < len(h.fragmentCores) ==> fresh(h.fragmentCores[k]) && h.fragmentCores[k].ID in cpuMap && cpuMap[h.fragmentCores[k].ID] == h.fragmentCores[k].pieces
+//@                                        && !(h.fragmentCores[k].pieces >= shareBase && h.fragmentCores[k].pieces % shareBase == 0)
+
+//@ func reorderByAffinity
+//@   trusted
+//@   requires okHost(oldH) && okHost(newH)
+//@   modifies newH, newH.fullCores[_], newH.fragmentCores[_]
+//@   ensures[C06.reorder,C04,C05] okHost(newH) && newH.shareBase == old(newH.shareBase) && newH.maxFragmentCores == old(newH.maxFragmentCores)
+
+//@ func (*host) getCPUPlans
+//@   trusted
+//@   requires okHost(h) && cpuRequest > 0.0 && cpuRequest <= 1048576.0
+//@   modifies h
+//@   ensures[C06.plans-wf,C04,C05] (arr(result) == 0 || allocated(result))
+
+//@ # ---- whole-core plans (no affinity): `full` distinct cores at a full share each ----
+//@ pred distinctIDs(cores []*cpuCore) = forall a, b :: 0 <= a && a < b && b < len(cores) ==> cores[a].ID != cores[b].ID
+
+//@ func (*host) getFullCPUPlans
+//@   requires h != nil && h.shareBase >= 1 && h.shareBase <= 1048576 && full >= 1 && okCores(cores) && distinctIDs(cores) && !h.affinity
+//@   ensures[C05.full-shape,C04,C06] (arr(result) == 0 || (fresh(result) && allocated(result))) && forall k :: 0 <= k && k < len(result) ==>
+//@        result[k] != nil && allocated(result[k]) && card(result[k]) == full && msum(result[k]) == full * h.shareBase
+//@        && forall id string :: id in result[k] ==> result[k][id] == h.shareBase
+//@   loop 1:
+//@     modifies cpuHeap, indexMap
+//@     invariant cpuHeap != nil && fresh(cpuHeap) && allocated(cpuHeap) && (arr(*cpuHeap) == 0 || (fresh(*cpuHeap) && allocated(*cpuHeap))) && len(*cpuHeap) == rangeindex + 1
+//@     invariant fresh(indexMap) && allocated(indexMap) && indexMap != nil && len(result) == 0 && (arr(result) == 0 || (fresh(result) && allocated(result)))
+//@     invariant forall k :: 0 <= k && k < len(*cpuHeap) ==> (*cpuHeap)[k] != nil && allocated((*cpuHeap)[k]) && fresh((*cpuHeap)[k])
+//@                  && (*cpuHeap)[k].pieces >= 1 && (*cpuHeap)[k].pieces <= 2305843009213693952 && (*cpuHeap)[k].ID == cores[k].ID
+//@     invariant forall a, b :: 0 <= a && a < b && b < len(*cpuHeap) ==> (*cpuHeap)[a] != (*cpuHeap)[b]
+//@   loop 2:
+//@     modifies cpuHeap, each r :: fresh(r)
+//@     invariant cpuHeap != nil && fresh(cpuHeap) && allocated(cpuHeap) && (arr(*cpuHeap) == 0 || (fresh(*cpuHeap) && allocated(*cpuHeap)))
+//@     invariant hsize(cpuHeap) == len(*cpuHeap) && hordered(cpuHeap) && (arr(result) == 0 || (fresh(result) && allocated(result)))
+//@     invariant forall e *cpuCore :: hcount(cpuHeap, e) >= 0 && hcount(cpuHeap, e) <= 1 && (hcount(cpuHeap, e) > 0 ==> len(*cpuHeap) >= 1)
+//@     invariant forall e *cpuCore :: hcount(cpuHeap, e) > 0 ==> e != nil && allocated(e) && fresh(e) && e.pieces >= 1 && e.pieces <= 2305843009213693952
+//@     invariant forall e1, e2 *cpuCore :: hcount(cpuHeap, e1) > 0 && hcount(cpuHeap, e2) > 0 && e1 != e2 ==> e1.ID != e2.ID
+//@     invariant forall k :: 0 <= k && k < len(result) ==> result[k] != nil && allocated(result[k]) && card(result[k]) == full && msum(result[k]) == full * h.shareBase
+//@                  && forall id string :: id in result[k] ==> result[k][id] == h.shareBase
+//@   loop 3:
+//@     modifies cpuHeap, plan, each r :: fresh(r)
+//@     invariant 0 <= i && i <= full && hsize(cpuHeap) == len(*cpuHeap) && len(*cpuHeap) >= full - i && hordered(cpuHeap)
+//@     invariant cpuHeap != nil && fresh(cpuHeap) && allocated(cpuHeap) && (arr(*cpuHeap) == 0 || (fresh(*cpuHeap) && allocated(*cpuHeap)))
+//@     invariant plan != nil && fresh(plan) && allocated(plan) && card(plan) == i && msum(plan) == i * h.shareBase && (forall id string :: id in plan ==> plan[id] == h.shareBase)
+//@     invariant (arr(resourcesToPush) == 0 || (fresh(resourcesToPush) && allocated(resourcesToPush))) && (arr(result) == 0 || (fresh(result) && allocated(result)))
+//@     invariant forall e *cpuCore :: hcount(cpuHeap, e) >= 0 && hcount(cpuHeap, e) <= 1 && (hcount(cpuHeap, e) > 0 ==> len(*cpuHeap) >= 1)
+//@     invariant forall e *cpuCore :: hcount(cpuHeap, e) > 0 ==> e != nil && allocated(e) && fresh(e) && e.pieces >= 1 && e.pieces <= 2305843009213693952 && !(e.ID in plan)
+//@     invariant forall e1, e2 *cpuCore :: hcount(cpuHeap, e1) > 0 && hcount(cpuHeap, e2) > 0 && e1 != e2 ==> e1.ID != e2.ID
+//@     invariant forall k :: 0 <= k && k < len(resourcesToPush) ==> resourcesToPush[k] != nil && allocated(resourcesToPush[k]) && fresh(resourcesToPush[k])
+//@                  && resourcesToPush[k].pieces >= 1 && resourcesToPush[k].pieces <= 2305843009213693952 && hcount(cpuHeap, resourcesToPush[k]) == 0
+//@                  && (forall e *cpuCore :: hcount(cpuHeap, e) > 0 ==> e.ID != resourcesToPush[k].ID)
+//@     invariant forall a, b :: 0 <= a && a < b && b < len(resourcesToPush) ==> resourcesToPush[a] != resourcesToPush[b] && resourcesToPush[a].ID != resourcesToPush[b].ID
+//@     invariant forall k :: 0 <= k && k < len(result) ==> result[k] != nil && allocated(result[k]) && result[k] != plan && card(result[k]) == full && msum(result[k]) == full * h.shareBase
+//@                  && forall id string :: id in result[k] ==> result[k][id] == h.shareBase
+//@     decreases full - i
+//@   loop 4:
+//@     modifies cpuHeap, each r :: fresh(r)
+//@     invariant cpuHeap != nil && fresh(cpuHeap) && allocated(cpuHeap) && (arr(*cpuHeap) == 0 || (fresh(*cpuHeap) && allocated(*cpuHeap)))
+//@     invariant hsize(cpuHeap) == len(*cpuHeap) && hordered(cpuHeap) && (arr(result) == 0 || (fresh(result) && allocated(result)))
+//@     invariant forall e *cpuCore :: hcount(cpuHeap, e) >= 0 && hcount(cpuHeap, e) <= 1 && (hcount(cpuHeap, e) > 0 ==> len(*cpuHeap) >= 1)
+//@     invariant forall e *cpuCore :: hcount(cpuHeap, e) > 0 ==> e != nil && allocated(e) && fresh(e) && e.pieces >= 1 && e.pieces <= 2305843009213693952
+//@     invariant forall e1, e2 *cpuCore :: hcount(cpuHeap, e1) > 0 && hcount(cpuHeap, e2) > 0 && e1 != e2 ==> e1.ID != e2.ID
+//@     invariant forall k :: rangeindex < k && k < len(resourcesToPush) ==> resourcesToPush[k] != nil && allocated(resourcesToPush[k]) && fresh(resourcesToPush[k])
+//@                  && resourcesToPush[k].pieces >= 1 && resourcesToPush[k].pieces <= 2305843009213693952 && hcount(cpuHeap, resourcesToPush[k]) == 0
+//@                  && (forall e *cpuCore :: hcount(cpuHeap, e) > 0 ==> e.ID != resourcesToPush[k].ID)
+//@     invariant forall a, b :: 0 <= a && a < b && b < len(resourcesToPush) ==> resourcesToPush[a] != resourcesToPush[b] && resourcesToPush[a].ID != resourcesToPush[b].ID
+//@     invariant forall k :: 0 <= k && k < len(result) ==> result[k] != nil && allocated(result[k]) && card(result[k]) == full && msum(result[k]) == full * h.shareBase
+//@                  && forall id string :: id in result[k] ==> result[k][id] == h.shareBase
+
+//@ # ---- memory admission of one planning round: the plans kept fit into the available memory ----
+//@ func doGetCPUPlans
+//@   requires shareBase >= 1 && shareBase <= 1048576 && (maxFragmentCores == -1 || maxFragmentCores >= 1) && cpuRequest > 0.0 && cpuRequest <= 1048576.0
+//@   requires memoryRequest >= 0 && memoryRequest <= 2305843009213693952 && -2305843009213693952 <= availableMemory && availableMemory <= 2305843009213693952
+//@   ensures[C04.mem-admission,C06] memoryRequest > 0 ==> len(result) * memoryRequest <= max(availableMemory, 0)
+//@   ensures[C04.mem-wf,C06] (arr(result) == 0 || allocated(result))
+
 //@ func GetCPUPlans
 //@   trusted
 //@   ensures[C07.plans-nonnil,C04,C05,C06,C33] (arr(result) == 0 || allocated(result)) && forall k :: 0 <= k && k < len(result) ==> result[k] != nil && allocated(result[k])
+
+//@ # tie-break key of getFullCPUPlans' final sort (sum of core indices): integer overflow of this key is not examined
+//@ func getFullCPUPlans$1
+//@   safety off
